@@ -235,4 +235,62 @@ def stackVec {α} (n : Nat) (blocks : List (List α)) : Option (List α) :=
   let v := blocks.flatten
   if v.length = n then some v else none
 
+/-! ### matrix form of `stack` (stack.h:11-63, 118-127) -/
+
+/-- a rank-2 block handed to `stack` (row-major data) -/
+structure Block (α : Type) where
+  rows : Nat
+  cols : Nat
+  data : List α
+deriving Repr
+
+/-- `matrix.block(row, col, br, bc) = block` on the row-major buffer `m` of a matrix with `cols` columns: every
+    cell `(R, C)` of the rectangle `[row, row+br) × [col, col+bc)` receives `block(R - row, C - col)`, every
+    other cell is left as it is (Eigen's block assignment) -/
+def placeBlock {α} (cols : Nat) (m : List α) (row col br bc : Nat) (blk : List α) : List α :=
+  m.mapIdx (fun o x =>
+    if row ≤ o / cols ∧ o / cols < row + br ∧ col ≤ o % cols ∧ o % cols < col + bc then
+      blk.getD ((o / cols - row) * bc + (o % cols - col)) x
+    else x)
+
+/-- `detail::stack(matrix, row, col, block, blocks...)`: place the block at `(row, col)`; if more blocks
+    follow, continue at `(row + block_rows, 0)` when `col + block_cols >= matrix.cols()` (the block-row is
+    full) and at `(row, col + block_cols)` otherwise; `none` where one of the asserts fires (block outside the
+    matrix; after the last block `row + block_rows == rows` and `col + block_cols == cols`). The extra guard
+    `data.length = rows * cols` says the block is a well-formed rank-2 tensor. -/
+def stackMatGo {α} (rows cols : Nat) : List (Block α) → Nat → Nat → List α → Option (List α)
+  | [], _, _, m => some m
+  | b :: bs, row, col, m =>
+    if b.data.length = b.rows * b.cols ∧ col + b.cols ≤ cols ∧ row + b.rows ≤ rows then
+      let m' := placeBlock cols m row col b.rows b.cols b.data
+      match bs with
+      | [] => if row + b.rows = rows ∧ col + b.cols = cols then some m' else none
+      | _ :: _ =>
+        if col + b.cols ≥ cols then stackMatGo rows cols bs (row + b.rows) 0 m'
+        else stackMatGo rows cols bs row (col + b.cols) m'
+    else none
+
+/-- `stack<tscalar>(rows, cols, blocks...)`: at least one block; the matrix is allocated without being
+    initialised by the C++ code — `fill` stands for the content of the cells no block covers (none, for the
+    gap-free layouts the contract asks for). -/
+def stackMat {α} (fill : α) (rows cols : Nat) (blocks : List (Block α)) : Option (List α) :=
+  match blocks with
+  | [] => none
+  | _ :: _ => stackMatGo rows cols blocks 0 0 (List.replicate (rows * cols) fill)
+
+/-- specification side: the `(row, col)` at which each block is placed (same wrap rule) -/
+def stackPos {α} (cols : Nat) : List (Block α) → Nat → Nat → List (Nat × Nat)
+  | [], _, _ => []
+  | b :: bs, row, col =>
+    (row, col) :: (if col + b.cols ≥ cols then stackPos cols bs (row + b.rows) 0
+                   else stackPos cols bs row (col + b.cols))
+
+/-- the contract "blocks are compatible in size": a block that continues a block-row has the height of its
+    left neighbour -/
+def StackAligned {α} (cols : Nat) : List (Block α) → Nat → Prop
+  | b :: b' :: rest, col =>
+    (col + b.cols < cols → b'.rows = b.rows) ∧
+    StackAligned cols (b' :: rest) (if col + b.cols ≥ cols then 0 else col + b.cols)
+  | _, _ => True
+
 end NanoVerif.Tensor
